@@ -574,6 +574,20 @@ func (m *Machine) branchAt(fr *frame, instr ssa.Instruction, cond *Term) bool {
 			c = 1
 		}
 		both := feas[0] && feas[1]
+		if both && forkProf != nil {
+			where := "?"
+			if instr != nil {
+				where = m.pos(instr.Pos())
+				if fr != nil && fr.fn != nil {
+					where += " " + fr.fn.Name()
+				}
+			} else if fr != nil && fr.fn != nil {
+				where = "intrinsic in " + fr.fn.Name()
+			}
+			forkMu.Lock()
+			forkProf[where]++
+			forkMu.Unlock()
+		}
 		m.stack = append(m.stack, decision{kind: "br", chosen: c, n: 2, tested: true, forced: !both, altOK: both, model: models[c]})
 		d = &m.stack[len(m.stack)-1]
 		if both {
@@ -596,6 +610,38 @@ func (m *Machine) branchAt(fr *frame, instr ssa.Instruction, cond *Term) bool {
 	m.dpos++
 	m.assertPC(sideCond(d.chosen))
 	return d.chosen == 0
+}
+
+var (
+	forkMu   sync.Mutex
+	forkProf map[string]int
+)
+
+func init() {
+	if os.Getenv("SYMGO_FORKPROF") != "" {
+		forkProf = map[string]int{}
+	}
+}
+
+func dumpForkProf() {
+	if forkProf == nil {
+		return
+	}
+	type kv struct {
+		k string
+		v int
+	}
+	var l []kv
+	for k, v := range forkProf {
+		l = append(l, kv{k, v})
+	}
+	sort.Slice(l, func(i, j int) bool { return l[i].v > l[j].v })
+	for i, e := range l {
+		if i >= 40 {
+			break
+		}
+		fmt.Fprintf(os.Stderr, "FORK %7d %s\n", e.v, e.k)
+	}
 }
 
 func (m *Machine) copyStack() []decision {
